@@ -6,6 +6,7 @@ package main
 import (
 	"fmt"
 	"go/types"
+	"regexp"
 	"strings"
 
 	"golang.org/x/tools/go/ssa"
@@ -121,8 +122,26 @@ func isStringType(t types.Type) bool {
 
 var leafMemo = map[string][]*Sort{}
 
+var typeKeyMemo = map[types.Type]string{}
+var aliasWord = regexp.MustCompile(`\b(byte|rune|any)\b`)
+
 func typeKey(t types.Type) string {
-	return types.TypeString(t, nil)
+	if k, ok := typeKeyMemo[t]; ok {
+		return k
+	}
+	s := types.TypeString(t, nil)
+	// byte/uint8, rune/int32 and any/interface{} are identical types
+	s = aliasWord.ReplaceAllStringFunc(s, func(w string) string {
+		switch w {
+		case "byte":
+			return "uint8"
+		case "rune":
+			return "int32"
+		}
+		return "interface{}"
+	})
+	typeKeyMemo[t] = s
+	return s
 }
 
 func arrayOf(ss []*Sort) []*Sort {
